@@ -2,13 +2,17 @@ package engine
 
 import (
 	"github.com/sanonone/kektordb/pkg/core/distance"
+	"github.com/sanonone/kektordb/pkg/core/hnsw"
 	"github.com/sanonone/kektordb/pkg/core/types"
 	rt "github.com/sanonone/kektordb/pkg/zzverifrt"
 )
 
 // zzBadOp issues one operation whose arguments may make it fail; returns its error.
 func zzBadOp(e *Engine) error {
-	switch rt.IntRange("bad", 0, 9) {
+	switch rt.IntRange("bad", 0, 10) {
+	case 10: // (duplicate or fresh) index creation carrying a maintenance configuration
+		cfg := &hnsw.AutoMaintenanceConfig{DeleteThreshold: 0.9, RefineBatchSize: 7}
+		return e.VCreate(zzIdx[rt.IntRange("bidx", 0, 1)], distance.Euclidean, 2, 4, distance.Float32, "", cfg, nil, nil)
 	case 0: // duplicate or fresh id, right or wrong dimension
 		dim := rt.IntRange("dim", 1, 2)
 		v := make([]float32, dim)
@@ -43,6 +47,24 @@ func zzBadOp(e *Engine) error {
 	return nil
 }
 
+// zzCfgObs reads the maintenance configuration of both indexes (part of the observable state: it decides what
+// vacuum and refine do).
+func zzCfgObs(e *Engine) [2][2]float64 {
+	var o [2][2]float64
+	for i, name := range zzIdx {
+		idx, ok := e.DB.GetVectorIndex(name)
+		if !ok {
+			o[i] = [2]float64{-1, -1}
+			continue
+		}
+		if h, ok := idx.(*hnsw.Index); ok {
+			c := h.GetMaintenanceConfig()
+			o[i] = [2]float64{c.DeleteThreshold, float64(c.RefineBatchSize)}
+		}
+	}
+	return o
+}
+
 // ZZVerifC05Rejected: an operation that returns an error changes nothing - not now, and not after a restart
 // (the journal delta it produced replays to the same state) - and the index stays usable.
 func ZZVerifC05Rejected() {
@@ -55,6 +77,7 @@ func ZZVerifC05Rejected() {
 		e.wg.Wait()
 	}
 	before := zzObserve(e, keys)
+	cfgBefore := zzCfgObs(e)
 	err := zzBadOp(e)
 	e.wg.Wait()
 	if err == nil {
@@ -63,6 +86,7 @@ func ZZVerifC05Rejected() {
 	}
 	rt.Reach("rejected")
 	zzCompare(before, zzObserve(e, keys), "rejected operation (live)")
+	rt.Assert(zzCfgObs(e) == cfgBefore, "rejected operation (live): index configuration unchanged")
 	// the affected index stays fully usable
 	if e.IndexExists("i0") {
 		if _, gerr := e.VGet("i0", "b"); gerr != nil {
@@ -74,5 +98,6 @@ func ZZVerifC05Rejected() {
 	e.AOF.Close()
 	e2 := zzOpen()
 	zzCompare(after, zzObserve(e2, keys), "rejected operation (after restart)")
+	rt.Assert(zzCfgObs(e2) == cfgBefore, "rejected operation (after restart): index configuration unchanged")
 	rt.Reach("end")
 }
